@@ -26,6 +26,7 @@ fn base() -> WorldCfg {
         non_utf8: false,
         signed_wide: false,
         projected_bias: false,
+        odd_widths: false,
         max_records: 6,
         max_sets: 3,
         count_flowsets: false,
@@ -109,6 +110,12 @@ fn exactness_toggles(c: &mut WorldCfg, rng: &mut Rng) {
     c.max_sets = rng.urange(1, 6);
     c.max_templates = rng.urange(1, 6);
     c.id_space = *rng.pick(&[2u16, 4, 8, 300]);
+    if rng.chance(1, 12) {
+        // an exporter with very many live templates (cache growth, nothing may be evicted)
+        c.max_templates = rng.urange(130, 400);
+        c.id_space = 2000;
+        c.max_fields = c.max_fields.min(6);
+    }
 }
 
 fn own_parsers(c: &mut WorldCfg, rng: &mut Rng) {
@@ -142,6 +149,7 @@ pub fn world_cfg(prop: &str, rng: &mut Rng) -> WorldCfg {
             }
             exactness_toggles(&mut c, rng);
             c.multi_tpl_sets = true;
+            c.odd_widths = rng.chance(1, 2);
             c.multi_rec_optdata = true;
             c.proto_any = true;
             c.signed_wide = true;
@@ -169,6 +177,7 @@ pub fn world_cfg(prop: &str, rng: &mut Rng) -> WorldCfg {
             exactness_toggles(&mut c, rng);
             c.proto_any = rng.chance(1, 2);
             c.signed_wide = rng.chance(1, 2);
+            c.odd_widths = rng.chance(1, 3);
             transport_faults(&mut c, rng, 100);
             c.corrupt = *rng.pick(&[0u32, 0, 100, 300]);
             c.truncate = *rng.pick(&[0u32, 50, 200]);
@@ -198,6 +207,9 @@ pub fn world_cfg(prop: &str, rng: &mut Rng) -> WorldCfg {
                 mixed_sharing(&mut c, rng);
             }
             exactness_toggles(&mut c, rng);
+            if matches!(prop, "C09" | "C10") {
+                c.odd_widths = rng.chance(1, 4);
+            }
             if prop == "C13" {
                 c.projected_bias = true;
                 c.unknown_types = rng.chance(1, 4);
